@@ -338,6 +338,10 @@ def run(tier, seed):
         run.extend(v)
         core.merge_counts(obs, o)
     feats = gfeat.programs()
+    # the schema-based feature programs of C07 (set operations incl. tops with compiler-added columns, let readers, loops):
+    # well-formed programs that take the less travelled paths of the SQL back-end
+    from . import c07
+    feats = feats + [("c07:%d" % i, src) for i, src in enumerate(c07.FEATURES_DB)]
     res = core.run_shards(_feat_shard, [dict(items=feats[i::N], targets=targets) for i in range(N)])
     for v, o in res:
         run.extend(v)
